@@ -28,10 +28,17 @@ type State struct {
 	pc    string
 	dead  bool
 	locks map[string]string // ghost lock state: path -> term (0 free, 1 read, 2 write)
+	symHeaps map[string]bool // non-nil: heaps are formal parameters (pred definitions)
+	symPrefix string
+	cur   int          // id of the innermost branch this state is in
+	anc   map[int]bool // branch ids whose assumptions are relevant here (ancestors and merged-in branches)
 }
 
 func (s *State) clone() *State {
-	n := &State{vars: make(map[types.Object]string, len(s.vars)), ghost: make(map[string]Val, len(s.ghost)), heaps: make(map[string]string, len(s.heaps)), alloc: s.alloc, pc: s.pc, dead: s.dead, locks: map[string]string{}}
+	n := &State{vars: make(map[types.Object]string, len(s.vars)), ghost: make(map[string]Val, len(s.ghost)), heaps: make(map[string]string, len(s.heaps)), alloc: s.alloc, pc: s.pc, dead: s.dead, locks: map[string]string{}, cur: s.cur, anc: make(map[int]bool, len(s.anc)+1)}
+	for k := range s.anc {
+		n.anc[k] = true
+	}
 	for k, v := range s.vars {
 		n.vars[k] = v
 	}
@@ -65,6 +72,7 @@ type Obligation struct {
 	Inputs  map[string]string
 	fv      *FuncVerifier
 	Cover   bool // cover obligation: expected sat
+	Anc     map[int]bool
 	queryFile string
 }
 
@@ -101,6 +109,8 @@ type FuncVerifier struct {
 
 	decls   []string
 	assumes []string
+	atags   []int
+	nbranch int
 	obls    []*Obligation
 	nfresh  int
 	entry   *State
@@ -127,6 +137,8 @@ type FuncVerifier struct {
 	curPos    token.Pos
 	abstracted map[string]bool
 	nEntry int
+	siteOcc map[string]int
+	pendingAsserts []string
 }
 
 type inputVar struct {
@@ -159,6 +171,27 @@ func (fv *FuncVerifier) assume(st *State, f string) {
 	} else {
 		fv.assumes = append(fv.assumes, "(=> "+st.pc+" "+f+")")
 	}
+	fv.tagLast(st.cur)
+}
+
+// tagLast records the branch tags of assumptions appended since the last call (default: global).
+func (fv *FuncVerifier) tagLast(tag int) {
+	for len(fv.atags) < len(fv.assumes)-1 {
+		fv.atags = append(fv.atags, 0)
+	}
+	if len(fv.atags) < len(fv.assumes) {
+		fv.atags = append(fv.atags, tag)
+	}
+}
+
+// branch moves a state into a fresh branch id.
+func (fv *FuncVerifier) branch(st *State) {
+	fv.nbranch++
+	st.cur = fv.nbranch
+	if st.anc == nil {
+		st.anc = map[int]bool{0: true}
+	}
+	st.anc[st.cur] = true
 }
 
 // assumeGlobal adds a fact independent of the path.
@@ -194,7 +227,10 @@ func (fv *FuncVerifier) oblige(st *State, kind, text, goal string) {
 	base := fv.name + "/" + kind + "/" + normText(text)
 	k := fv.occ[base]
 	fv.occ[base] = k + 1
-	o := &Obligation{Name: fmt.Sprintf("%s#%d", base, k), Kind: kind, Goal: goal, PC: st.pc, NAssume: len(fv.assumes), NDecl: len(fv.decls), Func: fv.name, Text: text, fv: fv}
+	o := &Obligation{Name: fmt.Sprintf("%s#%d", base, k), Kind: kind, Goal: goal, PC: st.pc, NAssume: len(fv.assumes), NDecl: len(fv.decls), Func: fv.name, Text: text, fv: fv, Anc: map[int]bool{0: true}}
+	for a := range st.anc {
+		o.Anc[a] = true
+	}
 	if fv.curPos.IsValid() {
 		p := fv.pkg.Fset.Position(fv.curPos)
 		o.Pos = fmt.Sprintf("%s:%d", p.Filename, p.Line)
@@ -295,7 +331,7 @@ func (fv *FuncVerifier) merge(states []*State) *State {
 		}
 	}
 	if len(live) == 0 {
-		d := &State{vars: map[types.Object]string{}, ghost: map[string]Val{}, heaps: map[string]string{}, alloc: "0", pc: "false", dead: true, locks: map[string]string{}}
+		d := &State{vars: map[types.Object]string{}, ghost: map[string]Val{}, heaps: map[string]string{}, alloc: "0", pc: "false", dead: true, locks: map[string]string{}, anc: map[int]bool{0: true}}
 		if len(states) > 0 && states[0] != nil {
 			d = states[0].clone()
 			d.dead = true
@@ -307,6 +343,12 @@ func (fv *FuncVerifier) merge(states []*State) *State {
 		return live[0]
 	}
 	out := live[0].clone()
+	for _, s := range live[1:] {
+		for a := range s.anc {
+			out.anc[a] = true
+		}
+	}
+	fv.branch(out)
 	pcs := make([]string, len(live))
 	for i, s := range live {
 		pcs[i] = s.pc
@@ -462,6 +504,11 @@ func (fv *FuncVerifier) merge(states []*State) *State {
 
 // heapOf returns the current term of a heap, creating the initial one on demand.
 func (fv *FuncVerifier) heapOf(st *State, h string) string {
+	if st.symHeaps != nil {
+		// symbolic heap parameters of an opaque predicate definition
+		st.symHeaps[h] = true
+		return st.symPrefix + h
+	}
 	if t, ok := st.heaps[h]; ok {
 		return t
 	}
@@ -478,7 +525,63 @@ func (fv *FuncVerifier) heapOf(st *State, h string) string {
 		fv.entry.heaps[h] = n
 	}
 	st.heaps[h] = n
+	fv.heapClosure(h, n, fv.alloc0)
 	return n
+}
+
+// refTerms lists the reference-valued components of a value of type t.
+func (fv *FuncVerifier) refTerms(term string, t types.Type, depth int) []string {
+	if t == nil || depth > 2 {
+		return nil
+	}
+	switch u := t.Underlying().(type) {
+	case *types.Slice:
+		return []string{sRef(term)}
+	case *types.Pointer, *types.Map:
+		return []string{term}
+	case *types.Struct:
+		n := fv.eng.sc.sortOf(t)
+		var out []string
+		for i := 0; i < u.NumFields(); i++ {
+			f := u.Field(i)
+			out = append(out, fv.refTerms("("+fv.eng.sc.fieldSel(n, f)+" "+term+")", f.Type(), depth+1)...)
+		}
+		return out
+	}
+	return nil
+}
+
+// heapClosure: every reference stored in heap term H is older than alloc.
+func (fv *FuncVerifier) heapClosure(h, H, alloc string) {
+	t := fv.eng.sc.tkeys[h]
+	if t == nil || alloc == "" {
+		return
+	}
+	var elem string
+	var binders string
+	switch {
+	case strings.HasPrefix(h, "HS_"):
+		elem = "(select (select " + H + " cr) ci)"
+		binders = "((cr Int) (ci Int))"
+	case strings.HasPrefix(h, "HP_"):
+		elem = "(select " + H + " cr)"
+		binders = "((cr Int))"
+	default:
+		return
+	}
+	refs := fv.refTerms(elem, t, 0)
+	if len(refs) == 0 {
+		return
+	}
+	var cs []string
+	for _, r := range refs {
+		cs = append(cs, "(< "+r+" "+alloc+")")
+	}
+	body := cs[0]
+	if len(cs) > 1 {
+		body = "(and " + strings.Join(cs, " ") + ")"
+	}
+	fv.assumeGlobal("(forall " + binders + " " + body + ")")
 }
 
 func (fv *FuncVerifier) allocRef(st *State) string {
